@@ -270,7 +270,7 @@ def relativise(o, root, placeholder="/R"):
 # ----------------------------------------------------------------------------
 # generators
 # ----------------------------------------------------------------------------
-STEP_NAMES = ["a", "b", "c", "ab", "a_b", "a-b", "gen", "sim", "post-1", "s2", "run.x", "Z9"]
+STEP_NAMES = ["a", "b", "c", "ab", "a_b", "a-b", "gen", "sim", "post-1", "s2", "run.x", "Z9", "mesh", "mesh_"]
 # keys are word characters plus regex-harmless punctuation (legal in maestrowf, e.g. MAT-ID; the key is
 # spliced unescaped into the used-parameter regex): H8's word_key admits  - : @ % ~ , ! =
 KEYS_FREE = ["SIZE", "ITER", "N", "T_1", "alpha", "B2", "MAT-ID", "T:1", "x@y", "p~q", "a,b", "W!", "k=v", "pc%"]
@@ -425,6 +425,48 @@ def gen_case(rng, stream):
     return {"rlimit": rng.choice([0, 1, 3]), "params": params, "steps": steps, "stream": stream}
 
 
+def gen_sibling(rng, base):
+    """Another study over the SAME parameter keys, step names (and env variable names) as `base` but with
+    different label templates / label lists, display names, values and row count: built in the same batch
+    before `base` is staged, it exposes tables shared between the objects of different studies."""
+    import copy
+    c = copy.deepcopy({k: base[k] for k in ("rlimit", "params", "steps")})
+    nrows = rng.randint(1, 5)
+    for p in c["params"]:
+        k = p["key"]
+        p["values"] = gen_values(rng, nrows)
+        p["name"] = rng.choice([None, "cells", k.lower() + "_sib", "Sibling " + k])
+        p["label"] = rng.choice(["n%%", "%%_" + k[:1].lower(), "s.%%", k + "-%%",
+                                 ["r%d" % (i % 3) + str(v).replace(".", "_") for i, v in enumerate(p["values"])]])
+    for st in c["steps"]:
+        if rng.random() < 0.5:
+            st["run"]["cmd"] = st["run"]["cmd"] + rng.choice(["", " # sib", " $(%s.label)" % c["params"][0]["key"]
+                                                               if c["params"] else ""])
+        st["description"] = rng.choice([st["description"], "sibling"])
+    c["rlimit"] = rng.choice([0, 1, 3])
+    c["stream"] = "sibling"
+    return c
+
+
+def gen_sibling_batches(rng, n):
+    """n batches [base, sibling, sibling(, sibling)] with a random staging order"""
+    out = []
+    while len(out) < n:
+        base = gen_case(rng, rng.choice(["valid", "valid", "prefix"]))
+        if not base["params"]:
+            continue
+        base["stream"] = "sibling"
+        batch = [base] + [gen_sibling(rng, base) for _ in range(rng.choice([1, 2, 3]))]
+        order = list(range(len(batch)))
+        rng.shuffle(order)
+        gid = "sib%d" % len(out)
+        for c in batch:
+            c["group"] = gid
+        batch[0]["group_order"] = order
+        out.append(batch)
+    return out
+
+
 def gen_scan_probe(rng):
     """texts for the scanner-vs-re comparison"""
     key = rng.choice(KEYS_PREFIX + KEYS_FREE + ["x", "_", "9", "-", "a-", "-a"])
@@ -480,7 +522,16 @@ def load_corpus(pid=PID):
     for p in sorted(glob.glob(os.path.join(common.CORPUS, pid, "*.json"))):
         try:
             c = json.load(open(p))
-            c["corpus_file"] = os.path.relpath(p, common.VERIF)
+            rel = os.path.relpath(p, common.VERIF)
+            if isinstance(c.get("batch"), list):        # a stored interleaving: the whole batch and its order
+                for k, m in enumerate(c["batch"]):
+                    m = dict(m, corpus_file=rel, group=rel)
+                    m.setdefault("stream", "corpus")
+                    if k == 0:
+                        m["group_order"] = c.get("order")
+                    res.append(m)
+                continue
+            c["corpus_file"] = rel
             c.setdefault("stream", "corpus")
             res.append(c)
         except Exception:
@@ -499,7 +550,7 @@ def nontrivial(case, o):
 
 
 def clean(case):
-    return {k: v for k, v in case.items() if k not in ("corpus_file",)}
+    return {k: v for k, v in case.items() if k not in ("corpus_file", "group", "group_order", "batch", "order", "index")}
 
 
 SCAN_HEADER = HEADER + """
@@ -529,7 +580,36 @@ def regex_texts():
 RESTAGE_PLANS = [["same"], ["same", "same"], ["toggle", "same"], ["toggle", "toggle", "same"], ["meta", "same"]]
 
 
-def stage_all(case, root):
+def prepare(case, root):
+    """BUILD phase of one case: the StudyEnvironment / ParameterGenerator / StudyStep / Study objects are
+    constructed (nothing is configured or staged yet).  A batch of cases is prepared completely before
+    any member is staged (see `evaluate`), so that state shared between objects of different studies
+    (class attributes, mutable default arguments) shows up in the comparison with the model."""
+    quiet()
+    os.makedirs(os.path.dirname(root), exist_ok=True)
+    try:
+        return {"study": build_study(case, root)}
+    except Exception as e:
+        return {"study": None, "obs": {"ok": False, "err": 1, "exc": type(e).__name__, "msg": str(e)[:200]}}
+
+
+def stage_first(prep, case, root, dry=True):
+    """STAGE phase, first staging of a prepared case (same observables as `stage_real`)."""
+    study = prep["study"]
+    if study is None:
+        return prep["obs"], None, None
+    try:
+        configure(study, case, dry)
+        _, dag = study.stage()
+    except Exception as e:
+        return {"ok": False, "err": 2, "exc": type(e).__name__, "msg": str(e)[:200]}, study, None
+    try:
+        return observe_dag(case, study, dag, root), study, dag
+    except Exception as e:      # a mutated tree may hand back something unobservable
+        return {"ok": False, "err": 3, "exc": type(e).__name__, "msg": str(e)[:200]}, study, dag
+
+
+def stage_all(case, root, prep=None):
     """The observables of ALL compared stagings of one case: the first one, and -- for a case with a
     "restage" plan -- every further `stage()` on the SAME Study object that runs under the model's
     configuration.  Plan entries: "same" = configure_study with the same settings, then stage (compared);
@@ -537,7 +617,7 @@ def stage_all(case, root):
     the graph itself is not compared: the model has hash_ws off); "meta" = store_metadata()+load_metadata()
     (skipped silently where the tree's load_metadata cannot run), then stage as "same".
     Staging is a function of the specification, so every compared observable must equal the model's."""
-    o, study, dag = stage_real(case, root)
+    o, study, dag = stage_first(prep if prep is not None else prepare(case, root), case, root)
     out = [o]
     if not case.get("restage") or not o.get("ok") or study is None:
         return out
@@ -573,17 +653,70 @@ STAGINGS = {}    # tag -> number of stagings compared with the model
 DOMAIN = {}      # tag -> indices of the cases outside hygiene H8 (None when not computed)
 
 
-def evaluate(ck, cases, tag="C08", want_domain=False):
+BATCH = 4
+BATCHES = {}     # tag -> [(member indices, staging order as positions in members)]
+
+
+def make_batches(cases):
+    """Consecutive cases with the same "group" form one batch (staged in the order "group_order" of its first
+    member, default reversed); the others are chunked by BATCH and staged in a rotated/reversed order.  In
+    every batch ALL studies are constructed before the first one is staged."""
+    plan, i, n, chunk = [], 0, len(cases), 0
+    while i < n:
+        g = cases[i].get("group")
+        j = i + 1
+        if g is not None:
+            while j < n and cases[j].get("group") == g:
+                j += 1
+            members = list(range(i, j))
+            order = cases[i].get("group_order") or list(reversed(range(len(members))))
+        else:
+            while j < n and j - i < BATCH and cases[j].get("group") is None:
+                j += 1
+            members = list(range(i, j))
+            k = len(members)
+            order = [(x + chunk) % k for x in range(k)] if chunk % 2 else list(reversed(range(k)))
+            chunk += 1
+        if sorted(order) != list(range(len(members))):
+            order = list(range(len(members)))
+        plan.append((members, order))
+        i = j
+    return plan
+
+
+def with_batch(cases, tag, i):
+    """The failing case together with its whole batch and the staging order (what a replay must re-create)."""
+    c = clean(cases[i])
+    for members, order in BATCHES.get(tag, []):
+        if i in members and len(members) > 1:
+            c["batch"] = [clean(cases[m]) for m in members]
+            c["order"] = list(order)
+            c["index"] = members.index(i)
+    return c
+
+
+def evaluate(ck, cases, tag="C08", want_domain=False, batches=None):
     """Run the implementation on every case, evaluate model + monitor in Coq.
     Returns list of (case, obs, verdict) with verdict in ok/violation/known/mismatch."""
     work = os.path.join(common.WORK, "run-" + tag.lower())
     shutil.rmtree(work, ignore_errors=True)
     os.makedirs(work)
     lits, obs, owner, spec_lits = [], [], [], []
+    # INTERLEAVED construction: all studies of a batch are built first, then staged in the batch's order
+    plan = batches if batches is not None else make_batches(cases)
+    BATCHES[tag] = plan
+    staged = {}
+    for members, order in plan:
+        roots = {i: os.path.join(work, "r%d" % i, "out") for i in members}
+        preps = {i: prepare(cases[i], roots[i]) for i in members}
+        for k in order:
+            i = members[k]
+            staged[i] = [relativise(o, roots[i]) for o in stage_all(cases[i], roots[i], preps[i])]
+        for i in members:
+            shutil.rmtree(os.path.dirname(roots[i]), ignore_errors=True)
+        del preps
     for i, case in enumerate(cases):
-        root = os.path.join(work, "r%d" % i, "out")
-        allobs = [relativise(o, root) for o in stage_all(case, root)]
-        shutil.rmtree(os.path.dirname(root), ignore_errors=True)
+        allobs = staged[i]
         obs.append(allobs[0])
         if len(allobs) > 1:
             allobs[0]["restagings"] = [{"staging": o.get("staging"), "ok": o.get("ok"),
@@ -685,10 +818,14 @@ def run(ck):
     cases += [gen_case(rng, "valid") for _ in range(n_valid)]
     cases += [gen_case(rng, "prefix") for _ in range(n_prefix)]
     cases += [gen_case(rng, "exotic") for _ in range(n_exotic)]
+    # interleaving stream: batches of studies over the same keys / step names with different labels, names, values
+    rs = random.Random(ck.seed * 104729 + 7)
+    for batch in gen_sibling_batches(rs, 24 if quick else 400):
+        cases += batch
     # re-stage stream: a share of the cases is staged two or three times on the SAME Study object
     rr = random.Random(ck.seed * 7919 + 13)
     for k, case in enumerate(cases):
-        share = {"tiny": 0.25, "valid": 0.30, "prefix": 0.30, "exotic": 0.15}.get(case["stream"], 0.0)
+        share = {"tiny": 0.25, "valid": 0.30, "prefix": 0.30, "exotic": 0.15, "sibling": 0.15}.get(case["stream"], 0.0)
         if "restage" not in case and rr.random() < share:
             case["restage"] = rr.choice(RESTAGE_PLANS)
     t0 = time.time()
@@ -720,7 +857,7 @@ def run(ck):
         v = verdicts[i]
         if v == "violation":
             ck.violation("C08_ok is false on the graph Study.stage() built (inside hygiene H8; staging #%s on the "
-                         "same Study object)" % detail.get(i, {}).get("staging", 1), clean(case))
+                         "same Study object)" % detail.get(i, {}).get("staging", 1), with_batch(cases, "C08", i))
         elif v.startswith("known:"):
             kid = v.split(":")[1]
             sig_hits[kid] = sig_hits.get(kid, 0) + 1
@@ -728,12 +865,12 @@ def run(ck):
                 ck.known_hit(kid, KNOWN_WHAT[kid] + "; witness " + registered[kid])
             else:                      # the signature is not (or no longer) listed in KNOWN_FINDINGS.txt
                 ck.violation("C08_ok is false on the graph Study.stage() built (signature %s, not a listed known "
-                             "finding)" % kid, clean(case))
+                             "finding)" % kid, with_batch(cases, "C08", i))
         elif v == "ood":
             sig_hits["out_of_domain"] = sig_hits.get("out_of_domain", 0) + 1
         elif v == "mismatch":
             n_mis += 1                 # the model's observable is printed for the first few only
-            ck.mismatch("model and Study.stage() disagree: %s" % json.dumps(detail.get(i)), clean(case),
+            ck.mismatch("model and Study.stage() disagree: %s" % json.dumps(detail.get(i)), with_batch(cases, "C08", i),
                         model_text(case) if n_mis <= 3 else "")
     for e in errs:
         ck.mismatch("coqc failed on cases file", None, e[1])
@@ -773,12 +910,21 @@ def run(ck):
                       "funnel dependencies mixed, 0-4 parameters x 0-5 rows with repeated int/float/str values, template and "
                       "per-row labels, value/label/name tokens and near-miss tokens in cmd/restart/description/resource keys, "
                       "workspace references) in streams valid/prefix/exotic; distinct = distinct (rlimit, params, steps); "
-                      "non-trivial = staged successfully with at least two instances; re-stage stream: a share of the cases is "
+                      "non-trivial = staged successfully with at least two instances; INTERLEAVING: the cases are processed in "
+                      "batches of up to 4 (histogram 'batches': size, * = staged in another order than built): every "
+                      "Study/ParameterGenerator/StudyEnvironment/StudyStep of a batch is constructed before the first member is "
+                      "configured and staged, and the sibling stream makes batches over the same keys and step names with "
+                      "different labels/names/values, so state shared between objects of different studies is compared with "
+                      "the model; a failing case is stored with its batch and order; re-stage stream: a share of the cases is "
                       "staged 2-4 times on the same Study object (configure_study repeated or toggled, store/load_metadata) and "
                       "every staging under the model's configuration is compared with the model (stage is a function of the "
                       "specification); inside_H8_and_staged counts the cases "
                       "on which the theorems' hypotheses hold (there the monitor must be true on the implementation's graph)")
     ck.cov["traces_validated_against_impl"] = STAGINGS.get("C08", len(cases))
+    hist["batches"] = {}
+    for members, order in BATCHES.get("C08", []):
+        kk = "%d%s" % (len(members), "" if order == list(range(len(members))) else "*")
+        hist["batches"][kk] = hist["batches"].get(kk, 0) + 1
     hist["restage_plans"] = {}
     for case in cases:
         if case.get("restage"):
@@ -795,21 +941,38 @@ def search(ck):
     for k, case in enumerate(cases):
         if k % 3 == 0:
             case["restage"] = RESTAGE_PLANS[(k // 3) % len(RESTAGE_PLANS)]
+    for batch in gen_sibling_batches(rng, 150):
+        cases += batch
     obs, verdicts, detail, errs = evaluate(ck, cases, tag="C08_search")
-    for case, v in zip(cases, verdicts):
+    for i, v in enumerate(verdicts):
         if v == "violation":
-            return ("C08_ok is false on the graph Study.stage() built (inside hygiene H8)", clean(case))
+            return ("C08_ok is false on the graph Study.stage() built (inside hygiene H8)",
+                    with_batch(cases, "C08_search", i))
     return None
 
 
 def replay(ck, path):
+    """Re-runs the stored case; a case stored with its "batch"/"order"/"index" is re-run inside exactly that
+    interleaving (all studies of the batch built first, then staged in the stored order)."""
     d = json.load(open(path))
     case = d.get("case", d)
-    obs, verdicts, detail, errs = evaluate(ck, [case], tag="C08_replay")
-    print("implementation:", json.dumps(obs[0], indent=1)[:6000])
-    print("model:", model_text(case))
-    print("verdict:", verdicts[0], detail.get(0), errs[:1])
-    return 0 if verdicts[0] == "ok" or verdicts[0].startswith("known:") or verdicts[0] == "ood" else 1
+    if isinstance(case.get("batch"), list) and case["batch"]:
+        cases = [dict(c) for c in case["batch"]]
+        order = case.get("order") or list(reversed(range(len(cases))))
+        idx = case.get("index", 0)
+        obs, verdicts, detail, errs = evaluate(ck, cases, tag="C08_replay", batches=[(list(range(len(cases))), order)])
+        print("batch of %d studies built first, staged in order %s; reported member: %d" % (len(cases), order, idx))
+        for k, v in enumerate(verdicts):
+            print("  member %d: %s %s" % (k, v, detail.get(k)))
+        worst = [v for v in verdicts if not (v == "ok" or v.startswith("known:") or v == "ood")]
+    else:
+        cases, idx = [case], 0
+        obs, verdicts, detail, errs = evaluate(ck, cases, tag="C08_replay")
+        worst = [v for v in verdicts if not (v == "ok" or v.startswith("known:") or v == "ood")]
+    print("implementation:", json.dumps(obs[idx], indent=1)[:6000])
+    print("model:", model_text(cases[idx]))
+    print("verdict:", verdicts[idx], detail.get(idx), errs[:1])
+    return 1 if worst else 0
 
 
 if __name__ == "__main__":
